@@ -55,6 +55,8 @@ static void fp0() {} static void fp1() {} static void fp2() {} static void fp3()
 static void (*const fpPool[])() = { fp0, fp1, fp2, fp3, fp0, fp1, fp2, fp3 };
 static const unsigned char memPool[8][4] = { { 0, 0, 0, 0 }, { 1, 2, 3, 4 }, { 1, 2, 3, 5 }, { 255, 0, 255, 0 }, { 9, 9, 9, 9 }, { 1, 0, 0, 0 }, { 0, 0, 0, 1 }, { 7, 7, 7, 8 } };
 static const size_t memLen[8] = { 4, 4, 4, 4, 2, 1, 3, 0 };
+// buffers 4 and 5 are prefixes of buffer 1 at the same address: equal addresses with different lengths are different values
+static const unsigned char* memPtr(int v) { return (v == 4 || v == 5) ? memPool[1] : memPool[v]; }
 struct MyType { int x; int pad; };
 static MyType objPool[8] = { { 0, 0 }, { 1, 0 }, { 2, 0 }, { 3, 0 }, { 4, 0 }, { 5, 0 }, { 6, 0 }, { 7, 0 } };
 static char objectsForOnObject[4][8];
@@ -174,7 +176,7 @@ struct CppFront : public Front {
             case T_PTR: x.withParameter(F.p[k].name, (void*)(uintptr_t)(0x1000 + 16 * v)); break;
             case T_CPTR: x.withParameter(F.p[k].name, (const void*)(uintptr_t)(0x2000 + 16 * v)); break;
             case T_FPTR: x.withParameter(F.p[k].name, fpPool[v & 3]); break;
-            case T_MEM: x.withParameter(F.p[k].name, memPool[v], memLen[v]); break;
+            case T_MEM: x.withParameter(F.p[k].name, memPtr(v), memLen[v]); break;
             case T_OBJ: x.withParameterOfType(objType(sc), F.p[k].name, &objPool[v]); break;
             default: break;
             }
@@ -219,7 +221,7 @@ struct CppFront : public Front {
             case T_PTR: x.withParameter(pn, (void*)(uintptr_t)(0x1000 + 16 * v)); break;
             case T_CPTR: x.withParameter(pn, (const void*)(uintptr_t)(0x2000 + 16 * v)); break;
             case T_FPTR: x.withParameter(pn, fpPool[v & 3]); break;
-            case T_MEM: x.withParameter(pn, memPool[v], memLen[v]); break;
+            case T_MEM: x.withParameter(pn, memPtr(v), memLen[v]); break;
             case T_OBJ: x.withParameterOfType(objType(sc), pn, &objPool[v]); break;
             default: break;
             }
@@ -337,7 +339,7 @@ struct CFront : public Front {
             case T_PTR: x->withPointerParameters(F.p[k].name, (void*)(uintptr_t)(0x1000 + 16 * v)); break;
             case T_CPTR: x->withConstPointerParameters(F.p[k].name, (const void*)(uintptr_t)(0x2000 + 16 * v)); break;
             case T_FPTR: x->withFunctionPointerParameters(F.p[k].name, fpPool[v & 3]); break;
-            case T_MEM: x->withMemoryBufferParameter(F.p[k].name, memPool[v], memLen[v]); break;
+            case T_MEM: x->withMemoryBufferParameter(F.p[k].name, memPtr(v), memLen[v]); break;
             case T_OBJ: x->withParameterOfType(objType(sc), F.p[k].name, &objPool[v]); break;
             default: break;
             }
@@ -381,7 +383,7 @@ struct CFront : public Front {
             case T_PTR: x->withPointerParameters(pn, (void*)(uintptr_t)(0x1000 + 16 * v)); break;
             case T_CPTR: x->withConstPointerParameters(pn, (const void*)(uintptr_t)(0x2000 + 16 * v)); break;
             case T_FPTR: x->withFunctionPointerParameters(pn, fpPool[v & 3]); break;
-            case T_MEM: x->withMemoryBufferParameter(pn, memPool[v], memLen[v]); break;
+            case T_MEM: x->withMemoryBufferParameter(pn, memPtr(v), memLen[v]); break;
             case T_OBJ: x->withParameterOfType(objType(sc), pn, &objPool[v]); break;
             default: break;
             }
